@@ -4,6 +4,19 @@ def cfgs(q, t):
     return {'quick': q, 'thorough': t}
 
 PLAN = {
+    'C01': {
+        'stages': [
+            {'name': 'stations',
+             'mc': [{'module': 'MC_C01', 'cfg': cfgs('MC_C01_quick.cfg', 'MC_C01_thorough.cfg'), 'workers': 8}],
+             'gens': ['gen_c01_random'],
+             'trace': 'Trace_Curve'},
+        ],
+        'assumptions': [
+            'TLC evaluates the L1 operators of Curve.tla correctly (exact integer arithmetic)',
+            'harness projection: coordinates/lengths quantised to 2^-16 lattice units, directions to 2^-14, infinitesimals realised as next_up/next_down',
+            'edges have integer length (axis-parallel / Pythagorean) times a power-of-two scale; irrational edge lengths are outside the exact domain',
+        ],
+    },
     'C18': {
         'stages': [
             {'name': 'angles',
